@@ -7,18 +7,23 @@ package dsa
 
 // DSA signature verification (FIPS 186-3, 4.7): "the verifier shall check that 0 < r' < q and
 // 0 < s' < q; if either condition is violated, the signature shall be rejected as invalid."
-// math/big values are visible only through sign and bit length (see
-// /verif/extern/rsa.contracts), so r < q appears as: q positive and bitlen(r) <= bitlen(q).
+// math/big values are visible only through sign, number of words and bit length (see
+// /verif/extern/bigint.contracts), so r < q appears as: q positive and bitlen(r) <= bitlen(q).
 // The code additionally rejects P == 0 and a Q whose bit length is not a multiple of 8.
 //
 // Preconditions: Verify dereferences every component of the key and r and s, so a key with a
 // missing (nil) P, Q, G or Y, or a nil r or s, panics (identical to upstream crypto/dsa; the
-// x509 parsers never build such keys). Zero or negative components are answered with false.
+// x509 parsers never build such keys). Zero or negative components are answered with false;
+// no division or modular inverse by zero is reached (pre@Mod / pre@ModInverse obligations).
+// The ensures speak about the entry state (old): nothing the caller can see is modified - that
+// is the frame obligation - only the two ghost relations over big.Int values may change,
+// because Verify computes in temporaries of its own.
 //@ pred bigPos(x) = !x.neg && len(x.abs) > 0
 //@ func Verify
 //@   requires pub != nil && pub.P != nil && pub.Q != nil && pub.G != nil && pub.Y != nil && r != nil && s != nil
-//@   requires bnorm(pub.P) && bnorm(pub.Q)
-//@   ensures  [range] result ==> bigPos(r) && bigPos(s) && bigPos(pub.Q) && blen(r) <= blen(pub.Q) && blen(s) <= blen(pub.Q)
-//@   ensures  [params] result ==> len(pub.P.abs) > 0 && blen(pub.Q) % 8 == 0
-//@   ensures  [reject] (!bigPos(r) || !bigPos(s) || !bigPos(pub.Q) || len(pub.P.abs) == 0) ==> !result
+//@   ensures  [range] result ==> old(bigPos(r) && bigPos(s) && bigPos(pub.Q) && blen(r) <= blen(pub.Q) && blen(s) <= blen(pub.Q))
+//@   ensures  [params] result ==> old(len(pub.P.abs) > 0 && blen(pub.Q) % 8 == 0)
+//@   ensures  [reject] old(!bigPos(r) || !bigPos(s) || !bigPos(pub.Q) || len(pub.P.abs) == 0) ==> !result
+//@   modifies ghost.bigEq, ghost.bigStr
+//@   uses perreturn
 //@   terminates
